@@ -1,6 +1,107 @@
 import GB.C20.Model
 import GB.C20.Spec
-/- C20 — property theorems. -/
+import GB.C20.ProofsTrie
+import GB.Generated.Facts
+/-
+  C20 — property theorems. Helper lemmas live in Proofs*.lean.
+-/
 open GB GB.C20
 
-theorem C20_placeholder : specParse [47] = some { segs := [], verb := none } := by decide
+/-! ### facts ties: the character tables, delimiter sets and structural facts the models use are the ones in the sources now -/
+
+def inRanges (rs : List (Nat × Nat)) (n : Nat) : Bool := rs.any (fun r => r.1 ≤ n && n ≤ r.2)
+
+set_option maxRecDepth 100000 in
+/-- `expectPChars` (gwbased): single-byte pchars are the extracted ranges plus the extracted case labels (the last label is '%'). -/
+theorem C20_facts_gw_pchar : ∀ n : Fin 256,
+    isPcharByte (UInt8.ofNat n.val) =
+      (inRanges GB.Generated.c20GwPcharRanges n.val || GB.Generated.c20GwPcharPunct.dropLast.contains n.val) := by
+  decide
+
+theorem C20_facts_gw_pct : GB.Generated.c20GwPcharPunct.getLast? = some cPct.toNat := by decide
+
+set_option maxRecDepth 100000 in
+/-- `consumePchar` (strict) -/
+theorem C20_facts_st_pchar : ∀ n : Fin 256,
+    isPcharByte (UInt8.ofNat n.val) =
+      (inRanges GB.Generated.c20StPcharRanges n.val || GB.Generated.c20StPcharPunct.contains n.val) := by
+  decide
+
+set_option maxRecDepth 100000 in
+/-- `expectIdent` / `checkIdent`: the first range (digits) is excluded at position 0; `_` is the extra case -/
+theorem C20_facts_ident : ∀ n : Fin 256,
+    (isIdentByte (UInt8.ofNat n.val) = (inRanges GB.Generated.c20GwIdentRanges n.val || n.val == 95)) ∧
+    (isIdentStart (UInt8.ofNat n.val) = (inRanges (GB.Generated.c20GwIdentRanges.drop 1) n.val || n.val == 95)) ∧
+    GB.Generated.c20StIdentRanges = GB.Generated.c20GwIdentRanges := by
+  decide
+
+set_option maxRecDepth 100000 in
+theorem C20_facts_hex : ∀ n : Fin 256,
+    isHexDigit (UInt8.ofNat n.val) = inRanges GB.Generated.c20GwHexRanges n.val ∧
+    GB.Generated.c20StHexRanges = GB.Generated.c20GwHexRanges := by
+  decide
+
+/-- delimiter sets of the tokenizer states (init, field, nested), both packages -/
+theorem C20_facts_delims :
+    GB.Generated.c20GwDelims = ["/{", ".=}", "/}"] ∧
+    GB.Generated.c20StDelims = ["tsegment=/{", "tvariable=.=}", "tnested=/}"] := by
+  decide
+
+set_option maxRecDepth 100000 in
+theorem C20_facts_delims_model : ∀ n : Fin 256,
+    isDelim .seg (UInt8.ofNat n.val) = [47, 123].contains n.val ∧
+    isDelim .fld (UInt8.ofNat n.val) = [46, 61, 125].contains n.val ∧
+    isDelim .nest (UInt8.ofNat n.val) = [47, 125].contains n.val := by
+  decide
+
+theorem C20_facts_eof :
+    GB.Generated.c20GwEof = eofTok.map UInt8.toNat ∧ GB.Generated.c20StEof = eofTok.map UInt8.toNat := by
+  decide
+
+/-- the three repairs the models assume are present in the sources -/
+theorem C20_facts_fixes :
+    GB.Generated.c20GwParseChecksNul = true ∧ GB.Generated.c20StParseChecksNul = true ∧
+    GB.Generated.c20GwParseChecksVerb = true ∧ GB.Generated.c20GwParseExactSlash = true := by
+  decide
+
+/-! ### trie -/
+
+/-- **Trie soundness.** Whatever `Find` may return (for every iteration order of the `verbs` map) is
+    a template that was added under the looked-up method and that matches the looked-up path:
+    the path's components are matched one to one by the template's keys (`*` any component, `**` all
+    remaining ones, a literal itself), with `":" ++ verb` at the very end. The hypothesis (no "/" in a
+    verb) holds for every template the strict parser returns (`C20_strict_verb_noslash`). -/
+theorem C20_trie_sound (t : Trie) (hv : ∀ e ∈ t, cSlash ∉ e.verb) (m p : Bytes) (e : Entry)
+    (h : e ∈ t.find m p) :
+    e ∈ t ∧ e.method = m ∧
+      Matches (e.keys.map Key.mkey) e.verb (splitOnByte cSlash (trimLeadingSlash p)) :=
+  find_sound t hv m p e h
+
+/-- Why D20 needed a repair: with the old `dfsLeaf` (suffix test even after a literal match, i.e. `wild`
+    always true) the trie holding `/a:v:v` answers `/a:v` with it, which does not match. -/
+theorem C20_trie_old_leaf_fails :
+    let e : Entry := { method := [], keys := [.lit [97, 58, 118]], verb := [118], tmpl := [47, 97, 58, 118, 58, 118] }
+    e ∈ dfsLeaf [e] [.lit [97, 58, 118]] [97, 58, 118] true ∧
+    ¬ Matches (e.keys.map Key.mkey) e.verb [[97, 58, 118]] := by
+  refine ⟨by decide, ?_⟩
+  intro ⟨cs, h1, h2⟩
+  cases cs with
+  | nil => simp [addVerb] at h2
+  | cons c cs =>
+    cases cs with
+    | nil =>
+      simp [addVerb] at h2
+      simp [Key.mkey, matchKeys] at h1
+      rw [← h1] at h2
+      simp at h2
+    | cons d r => simp [addVerb] at h2; cases r <;> simp [addVerb] at h2
+
+/-! ### gwbased: legacy `accept` clause (kept in the code for the token-level unit test, disabled by `Parse`) -/
+
+/-- With the legacy clause `t != string(term) && t != "/"` the template "//" is the route "/*" (D19). -/
+theorem C20_gw_legacy_accept_fails :
+    ((gwParseWith false [47, 47]).toOption.map (·.str)) = some [47, 42] ∧
+    ((gwParseWith false [47, 123, 97, 61, 47, 125]).toOption.map (·.str)) = some [47, 123, 97, 61, 42, 125] ∧
+    (gwParse [47, 47]).toOption.isNone = true ∧
+    (gwParse [47, 123, 97, 61, 47, 125]).toOption.isNone = true := by
+  decide
